@@ -27,7 +27,7 @@ Record same_system (c c' : @chain RA) (load load' : rq -> rq -> rq -> res rq) (d
 
 Theorem run_unit_independent (c c' : @chain RA) load load' dt0 dt0' W0 TM I0 IM L JJ DT D :
   same_system c c' load load' dt0 dt0' W0 TM I0 IM L JJ DT ->
-  I0 / IM < D -> 0 <= I0 /\ 0 < IM /\ 0 < W0 /\ 0 < JJ ->
+  I0 / IM < Rabs D -> 0 <= I0 /\ 0 < IM /\ 0 < W0 /\ 0 < JJ ->
   forall h h', hist_ok c load h -> hist_ok c' load' h' -> uniform D dt0 h -> uniform D dt0' h' ->
   (* the same initial state, in SI *)
   forall t0 s0 pre t0' s0' pre', h = (pre ++ [(t0, s0)])%list -> h' = (pre' ++ [(t0', s0')])%list ->
@@ -54,7 +54,7 @@ Qed.
 (** the same, for the histories of any two operation sequences on fresh powertrains *)
 Theorem reachable_run_unit_independent (c c' : @chain RA) load load' dt0 dt0' W0 TM I0 IM L JJ DT D ops ops' p w p' w' st st' :
   same_system c c' load load' dt0 dt0' W0 TM I0 IM L JJ DT ->
-  I0 / IM < D -> 0 <= I0 /\ 0 < IM /\ 0 < W0 /\ 0 < JJ ->
+  I0 / IM < Rabs D -> 0 <= I0 /\ 0 < IM /\ 0 < W0 /\ 0 < JJ ->
   exec c load ops (initial p w) = Ok st -> exec c' load' ops' (initial p' w') = Ok st' ->
   uniform D dt0 (y_hist st) -> uniform D dt0' (y_hist st') ->
   forall t0 s0 pre t0' s0' pre', y_hist st = (pre ++ [(t0, s0)])%list -> y_hist st' = (pre' ++ [(t0', s0')])%list ->
@@ -86,7 +86,7 @@ Proof.
 Qed.
 Theorem every_instant_unit_independent (c c' : @chain RA) load load' dt0 dt0' W0 TM I0 IM L JJ DT D ops ops' p w p' w' st st' :
   same_system c c' load load' dt0 dt0' W0 TM I0 IM L JJ DT ->
-  I0 / IM < D -> 0 <= I0 /\ 0 < IM /\ 0 < W0 /\ 0 < JJ ->
+  I0 / IM < Rabs D -> 0 <= I0 /\ 0 < IM /\ 0 < W0 /\ 0 < JJ ->
   exec c load ops (initial p w) = Ok st -> exec c' load' ops' (initial p' w') = Ok st' ->
   uniform D dt0 (y_hist st) -> uniform D dt0' (y_hist st') ->
   forall t0 s0 pre t0' s0' pre', y_hist st = (pre ++ [(t0, s0)])%list -> y_hist st' = (pre' ++ [(t0', s0')])%list ->
